@@ -11,6 +11,17 @@
 (* else the specification predicts (11.4 decode of the abstract encoding, version number,    *)
 (* level admission, membership in the encoder design's option list, number of headers per    *)
 (* base format) is compared and reported as a non-alarm disagreement (rule R1).              *)
+(*                                                                                           *)
+(* Every recorded header is serialised TWICE: in isolation (a deep copy, fields prefixed as   *)
+(* before: ok, exc, key, dec, dpcm, ver) and IN ORDER: the very objects the generator yielded, *)
+(* one after the other in generation order, without copying them, as a user of the public API  *)
+(* would (h.cell = position of the first recorded header of the configuration whose            *)
+(* parse-parameters object IS this header's; h.same = the bytes equal the isolated ones;       *)
+(* h.s = the validator's verdict on the in-order bytes when they differ).  The validator is a  *)
+(* function of the bytes, so identical bytes are not judged twice.  The alarm clauses of the   *)
+(* in-order pass are again exactly C15 (accepted, decoded = requested) - for the header as     *)
+(* generated; what the heap model (SeqHeaderOps!SerialiseInOrder) predicts - own cells, the    *)
+(* version each in-order header carries, bytes independent of the order - is logged.           *)
 EXTENDS SeqHeaderOps, Json, IOUtils, TLCExt
 
 Log == ndJsonDeserialize(IOEnv.TRACE_FILE)
@@ -42,6 +53,19 @@ HeaderClause(e, opts, lcols, h) ==
                                                         THEN V("SpecOption", FALSE)
   ELSE V("ok", FALSE)
 
+(* the in-order pass: iov = SerialiseInOrder over the recorded cells (the version the heap model says *)
+(* header j carries when the headers are serialised one after the other)                               *)
+InOrderClause(e, allwf, iov, j) ==
+  LET h == e.hs[j] IN
+  IF ~h.same /\ ~h.s.ok                                 THEN V("RejectedInOrder", TRUE)
+  ELSE IF ~h.same /\ h.s.dec # e.req                    THEN V("WrongParametersInOrder", TRUE)
+  ELSE IF ~h.same /\ h.s.dpcm # e.pcm                   THEN V("WrongCodingModeInOrder", TRUE)
+  ELSE IF h.cell # j                                    THEN V("SpecAliasedParseParameters", FALSE)
+  ELSE IF allwf /\ (h.same => h.ok) /\ (IF h.same THEN h.ver ELSE h.s.ver) # iov[j]
+                                                        THEN V("SpecInOrderVersion", FALSE)
+  ELSE IF ~h.same                                       THEN V("SpecOrderDependent", FALSE)
+  ELSE V("ok", FALSE)
+
 (* per configuration (when all headers were recorded): the number of headers per base format is what *)
 (* the design predicts                                                                                *)
 CountClause(e, opts) ==
@@ -60,8 +84,14 @@ LineBad(e, line) ==
       idx  == AscSeq({j \in 1..Len(e.hs) : cl[j].c # "ok"})
       hb   == [k \in 1..Len(idx) |-> [tid |-> e.tid, line |-> line, h |-> idx[k],
                                       clause |-> cl[idx[k]].c, alarm |-> cl[idx[k]].alarm]]
+      iov  == SerialiseInOrder(e.ft.profile, [j \in 1..Len(e.hs) |-> [e |-> e.hs[j].e, cell |-> e.hs[j].cell]])
+      allwf == \A j \in 1..Len(e.hs) : WellFormed(e.hs[j].e)     \* (a malformed one is reported by HeaderClause)
+      il   == [j \in 1..Len(e.hs) |-> InOrderClause(e, allwf, iov, j)]
+      iidx == AscSeq({j \in 1..Len(e.hs) : il[j].c # "ok"})
+      ib   == [k \in 1..Len(iidx) |-> [tid |-> e.tid, line |-> line, h |-> iidx[k],
+                                       clause |-> il[iidx[k]].c, alarm |-> il[iidx[k]].alarm]]
       cc   == CountClause(e, opts)
-  IN hb \o (IF cc.c = "ok" THEN <<>> ELSE <<[tid |-> e.tid, line |-> line, h |-> 0, clause |-> cc.c, alarm |-> cc.alarm]>>)
+  IN hb \o ib \o (IF cc.c = "ok" THEN <<>> ELSE <<[tid |-> e.tid, line |-> line, h |-> 0, clause |-> cc.c, alarm |-> cc.alarm]>>)
 
 TraceInit == l = 1 /\ bad = <<>>
 TraceNext == /\ l <= Len(Log)
